@@ -237,7 +237,8 @@ fn gen_c01_debug_silent(base_seed: u64, batch: &str, run: u64, rng: &mut Rng) ->
     let mut clauses = vec![];
     let mut union = 0u32;
     for _ in 0..n {
-        let pred = (rng.next() as u32) & 0xf;
+        // (singletons are written as struct patterns)
+        let pred = if rng.chance(1, 2) { 1u32 << rng.below(4) } else { (rng.next() as u32) & 0xf };
         union |= pred;
         clauses.push(ClauseSpec {
             m: M::D0,
@@ -271,7 +272,119 @@ fn gen_c01_debug_silent(base_seed: u64, batch: &str, run: u64, rng: &mut Rng) ->
     }
 }
 
+/// C07: one method with 66-80 patterns written with the real `matching!` macro, none of which accepts
+/// one particular argument: the call with that argument has no applicable pattern and the mock has to
+/// say so (its report collects a mismatch from every one of the patterns).
+fn gen_c07_very_wide(base_seed: u64, batch: &str, run: u64, rng: &mut Rng) -> Scenario {
+    let m = *rng.pick(&[M::A0, M::A1, M::B3]);
+    let hole = rng.below(4) as u32;
+    let n = rng.range(66, 80);
+    let mut clauses = vec![];
+    for _ in 0..n {
+        let pred = ((rng.next() as u32) & 0xf) & !(1 << hole);
+        clauses.push(ClauseSpec {
+            m,
+            form: Form::EachCall,
+            patterns: vec![PatternSpec { pred, has_matcher: true, macro_form: true, segs: vec![Seg { resp: Resp::Returns, quant: Quant::Unq }] }],
+        });
+    }
+    let mut config = gen_config(rng, &CfgOpts { max_methods: 1, pool: vec![M::Z0], ..CfgOpts::default() });
+    config.clauses = clauses;
+    config.partial = false;
+    config.nest_seed = if rng.chance(1, 2) { 0 } else { rng.next() | 1 };
+    let mut ops = vec![];
+    for _ in 0..rng.range(1, 4) {
+        let x = if rng.chance(1, 2) { hole as u8 } else { rng.below(4) as u8 };
+        ops.push(Op::Call { slot: 0, m, x, y: 0, catch: true, fault: None, keep: false });
+    }
+    ops.push(Op::Verify { slot: 0 });
+    Scenario {
+        prop: "C07".into(),
+        base_seed,
+        run,
+        batch: batch.into(),
+        config,
+        config2: None,
+        threads: vec![ops],
+        sched: gen_sched(rng, false),
+        knobs: vec![("prelude".into(), 0)],
+    }
+}
+
+/// C02: one pattern whose first segment is matched 65 535 .. 70 000 times before the chain moves on.
+fn gen_c02_storm(base_seed: u64, batch: &str, run: u64, rng: &mut Rng) -> Scenario {
+    let n1 = *rng.pick(&[65_535u32, 65_536, 65_537, 70_000]);
+    let n2 = rng.range(1, 3) as u32;
+    let form = if rng.chance(1, 2) { Form::EachCall } else { Form::NextCall };
+    // (an ordered clause is exact by nature)
+    let open_ended = form == Form::EachCall && rng.chance(1, 2);
+    let segs = vec![
+        Seg { resp: Resp::Returns, quant: Quant::N(n1) },
+        Seg { resp: Resp::Returns, quant: if open_ended { Quant::Unq } else { Quant::N(n2) } },
+    ];
+    let config = Config {
+        partial: false,
+        clauses: vec![ClauseSpec { m: M::A1, form, patterns: vec![PatternSpec { pred: 0xf, has_matcher: true, macro_form: false, segs }] }],
+        nest_seed: 0,
+        ..Default::default()
+    };
+    let n = n1 + if open_ended { n2 + 2 } else { n2 };
+    Scenario {
+        prop: "C02".into(),
+        base_seed,
+        run,
+        batch: batch.into(),
+        config,
+        config2: None,
+        threads: vec![vec![Op::CallStorm { slot: 0, m: M::A1, x: rng.below(4) as u8, n }, Op::Verify { slot: 0 }]],
+        sched: gen_sched(rng, false),
+        knobs: vec![("prelude".into(), 0)],
+    }
+}
+
+/// the oracle for a storm: the run-length encoding of the answers is the chain itself
+fn check_c02_storm(scn: &Scenario, res: &RunResult) -> Vec<Violation> {
+    let mut out = vec![];
+    let Some(Op::CallStorm { n, .. }) = scn.threads.first().and_then(|t| t.first()) else { return out };
+    let segs = &scn.config.clauses[0].patterns[0].segs;
+    let (n1, second) = match (segs[0].quant, segs[1].quant) {
+        (Quant::N(a), Quant::N(b)) => (a, b),
+        (Quant::N(a), _) => (a, *n - a),
+        _ => return out,
+    };
+    let token = |seg: u64| format!("{:#x}", VAL_RET | seg);
+    let expected = vec![(token(0), n1), (token(1), second)];
+    let got: Vec<(String, u32)> = match res.log.ops.first().map(|o| &o.result) {
+        Some(OpResult::Info(s)) => serde_json::from_str(s).unwrap_or_default(),
+        other => {
+            out.push(v("C02", "kth-match-segment", "storm", format!("the storm of {n} calls did not run: {other:?}")));
+            return out;
+        }
+    };
+    if got != expected {
+        out.push(v(
+            "C02",
+            "kth-match-segment",
+            "storm",
+            format!("{n} matches of one pattern whose chain is {n1} x first response, then {second} x second: the answers came back as runs {got:?}, expected {expected:?}"),
+        ));
+    }
+    // and the verdict: every count is met
+    if let Some(o) = res.log.ops.get(1) {
+        if !matches!(o.result, OpResult::Quiet) {
+            out.push(v("C02", "kth-match-segment", "storm-verdict", format!("after exactly the expected number of matches verification said {:?}", o.result)));
+        }
+    }
+    out
+}
+
 fn gen_coarse(prop: &str, base_seed: u64, batch: &str, run: u64, rng: &mut Rng) -> Scenario {
+    if prop == "C02" && batch == "fault-free" && rng.chance(1, 2500) {
+        return gen_c02_storm(base_seed, batch, run, rng);
+    }
+    if prop == "C07" && batch == "fault-free" && rng.chance(1, 60) {
+        return gen_c07_very_wide(base_seed, batch, run, rng);
+    }
     if prop == "C01" && batch == "faults" && rng.chance(1, 10) {
         return gen_c01_debug_silent(base_seed, batch, run, rng);
     }
@@ -371,6 +484,29 @@ fn gen_coarse(prop: &str, base_seed: u64, batch: &str, run: u64, rng: &mut Rng) 
         }
     }
     let (mut threads, prelude) = gen_history(rng, &config, &ho);
+    // counts beyond 32 bits: one exact or at-least count of the mock becomes 2^32 + itself (after the
+    // history was drawn: the calls still aim at the small count, which is what a wrapped count would be)
+    if matches!(prop, "C02" | "C03" | "C04") && batch == "fault-free" && cfg!(target_pointer_width = "64") && rng.chance(1, 150) {
+        let mut spots = vec![];
+        for (ci, c) in config.clauses.iter().enumerate() {
+            for (pi, p) in c.patterns.iter().enumerate() {
+                for (si, sg) in p.segs.iter().enumerate() {
+                    if matches!(sg.quant, Quant::N(_) | Quant::AtLeast(_)) {
+                        spots.push((ci, pi, si));
+                    }
+                }
+            }
+        }
+        if !spots.is_empty() {
+            let (ci, pi, si) = spots[rng.usize(spots.len())];
+            let q = &mut config.clauses[ci].patterns[pi].segs[si].quant;
+            *q = match *q {
+                Quant::N(n) => Quant::N(crate::model::HUGE + n.min(1000)),
+                Quant::AtLeast(n) => Quant::AtLeast(crate::model::HUGE + n.min(1000)),
+                other => other,
+            };
+        }
+    }
     if prop == "C03" && batch == "user-faults" {
         // some threads keep their clone on their own stack and die of an uncaught user panic: the
         // clone is dropped while unwinding; what the original reports still follows the counts
@@ -559,6 +695,7 @@ fn check_coarse(scn: &Scenario) -> Checked {
     }
     let violations = match scn.prop.as_str() {
         "C01" => check_c01(scn, &res),
+        "C02" if matches!(scn.threads.first().and_then(|t| t.first()), Some(Op::CallStorm { .. })) => check_c02_storm(scn, &res),
         "C02" => check_c02(scn, &res),
         "C03" => check_c03(scn, &res),
         "C04" => check_c04(scn, &res),
